@@ -134,6 +134,16 @@ def run_case(c, d):
             A = (full[1:] if cplx else np.real(full[1:]))
         B = gen.stable_poly(rng, d['lb'], cplx, 0.8)[1:] if d['lb'] else None
         NFFT = max(d['NFFT'], max(d['la'], d['lb']) + 1)
+        if d.get('j', 0) % 10 == 7:
+            # "all coefficient vectors": first coefficient exactly 1, integer-valued entries
+            if A is not None:
+                A = np.array(A, copy=True)
+                A[0] = 1.0
+                if len(A) > 1 and d['j'] % 20 == 7:
+                    A[1:] = np.round(2 * A[1:].real)
+            if B is not None and d['j'] % 20 == 17:
+                B = np.array(B, copy=True)
+                B[0] = 1.0
         try:
             spectrum.arma2psd(A=A, B=B, rho=d['rho'], T=d['T'], NFFT=NFFT)
         except Exception as exc:
